@@ -759,6 +759,7 @@ def shrink(case, fails):
 class C11:
   LEAN_MODULES = ['MlModel.Properties.C11.RetrievalThrHeap', 'MlModel.Properties.C11.ClassificationStateHeap',
                   'MlModel.Properties.C11.RollingHistHeap', 'MlModel.Properties.C11.MergeStates',
+                  'MlModel.Properties.C11.ClassificationMergeStates',
                   'MlModel.Witness.C11MergeStates']
   TRUSTED = TRUSTED
   ASSUMPTIONS = ASSUMPTIONS
